@@ -88,6 +88,47 @@ def run(ctx):
             r.fail(rule, key, 'MessageChunk data comes from an unexpected source: ' + bad[0][:120], loc=b.loc)
         else:
             r.ok(rule, key, 'MessageChunk data is a plain copy or a verified buffer (%d source(s))' % len(srcs), loc=b.loc)
+    # ---------------- (vi) the channel's security state cannot be downgraded by an unverified chunk
+    rule = 'security-state-writes'
+    writes = [(bi, si, st) for bi, blk in enumerate(b.blocks) if not blk['c'] for si, st in enumerate(blk['s'])
+              if st[0] == '=' and st[1][0] == 1 and any(t in ('.security_policy', '.security_mode') for t in st[1][1])]
+    asym_ok = edges_where(F, lambda l: l[0] == 'try' and l[2] and l[1][0] == 'call' and l[1][1].endswith('SecureChannel::asymmetric_decrypt_and_verify'))
+    accept_blocks = {c.bb for c in copies} | {bb for bb, si, pl in result_ctor_sites(b, 'Ok')}
+    if not writes:
+        r.lost(rule, 'verify:policy-write', 'no assignment of self.security_policy found in verify_and_remove_security_forensic')
+    for j, (bi, si, st) in enumerate(writes):
+        cut = frozenset((s_, d_) for s_, d_, _ in asym_ok)
+        reach = b.reachable_blocks(bi, removed_edge=cut)
+        leak = sorted(x for x in accept_blocks if x in reach and not (x == bi))
+        key = 'verify:write%s#%d' % ([t for t in st[1][1] if t.startswith('.')][-1], j)
+        if leak or not asym_ok:
+            r.fail(rule, key, 'the channel %s is overwritten from an OPN header on a path that accepts the chunk without asymmetric verification '
+                              '(a forged OPN could downgrade a secured channel)' % [t for t in st[1][1] if t.startswith('.')][-1][1:], loc=b.loc)
+        else:
+            r.ok(rule, key, 'the header policy is stored only on the path whose every accepting exit passes asymmetric_decrypt_and_verify success', loc=b.loc)
+    # who may write the security state at all
+    allowed_writers = {'core::comms::secure_channel::SecureChannel::set_security_mode', 'core::comms::secure_channel::SecureChannel::set_security_policy',
+                       'core::comms::secure_channel::SecureChannel::verify_and_remove_security_forensic'}
+    allowed_callers = [r'^server::comms::secure_channel_service::SecureChannelService::open_secure_channel$', r'^client::', r'^core::tests::', r'::tests::']
+    nw = 0
+    for bid, pth in db.path_of.items():
+        if not pth.startswith(('core::', 'server::', 'client::', 'crypto::')):
+            continue
+        bd = db.bodies[bid]
+        for blk in (bd.blocks if any('secure_channel::SecureChannel' in t for t in bd.locals[:8]) else []):
+            for st in blk['s']:
+                if st[0] == '=' and st[1][1] and any(t in ('.security_policy', '.security_mode') for t in st[1][1]) and                         'secure_channel::SecureChannel' in bd.locals[st[1][0]]:
+                    nw += 1
+                    if pth not in allowed_writers:
+                        r.fail(rule, 'writer:' + pth, 'SecureChannel.security_policy/mode is assigned in an unexpected function', loc=bd.loc)
+        for c in bd.calls():
+            if re.search(r'SecureChannel::set_security_(policy|mode)$', c.callee):
+                nw += 1
+                if not any(re.search(rx, pth) for rx in allowed_callers):
+                    r.fail(rule, 'setter-caller:' + pth, '%s is called from an unexpected place' % c.callee.rsplit('::', 1)[-1], loc=c.loc)
+    if nw >= 3 and not any(o.rule == rule and o.status == 'violation' and o.key.startswith(('writer:', 'setter-caller:')) for o in r.obls):
+        r.ok(rule, 'writers', 'security_policy / security_mode are only assigned by their setters and the OPN verification path (%d sites); server-side setter calls only in open_secure_channel' % nw)
+    r.floor(rule, 'security_state_write_sites', nw, 5)
     # ---------------- (ii)
     rule = 'ok-after-signature-check'
     for fn, need in (('symmetric_decrypt_and_verify', [r'symmetric_verify_signature$']),
